@@ -378,8 +378,9 @@ func waitFor(cond func() bool) bool {
 type script struct {
 	ck        checkerCfg
 	chunks    [][]byte
-	pauseAt   int // index of the chunk after which the client waits for the server (-1 none)
-	repliesAt int // index of the chunk after which the client waits for the expected replies (-1 none)
+	pauseAt   int    // index of the chunk after which the client waits for the server (-1 none)
+	repliesAt int    // index of the chunk after which the client waits for the expected replies (-1 none)
+	entry     string // serveconn | listener
 	human     string
 	class     string
 	split     string
@@ -417,18 +418,44 @@ func runCase(srv erpc.Peer, sc *script) *outcome {
 	atomic.StoreInt32(&fnMulti, 0)
 	atomic.StoreInt32(&ckSaidOK, 0)
 	atomic.StoreInt32(&otherFailed, 0)
-	cc, sconn := TCPPair()
-	addr := cc.LocalAddr().String()
 	var (
-		sess   erpc.Session
-		served int32
+		cc       net.Conn
+		addr     string
+		sessOK   int32 // the server produced a session for this connection
+		served   int32
+		isServed func() bool
 	)
-	go func() {
-		s, _ := srv.ServeConn(sconn)
-		sess = s
-		atomic.StoreInt32(&served, 1)
-	}()
-	isServed := func() bool { return atomic.LoadInt32(&served) == 1 }
+	if sc.entry == "listener" {
+		// the same peer, entered through Peer.ListenAndServe (serveListener). There is no return
+		// value to look at: "served" = the last PostAccept plugin of the chain ran (the chain let the
+		// connection through) or PostDisconnect ran (the connection was refused and closed)
+		c, err := net.Dial("tcp", listenAddr)
+		Must(err)
+		cc = c
+		addr = cc.LocalAddr().String()
+		isServed = func() bool {
+			recMu.Lock()
+			defer recMu.Unlock()
+			r := recOf(addr)
+			if r.postAccept > 0 {
+				atomic.StoreInt32(&sessOK, 1)
+			}
+			return r.postAccept > 0 || r.disc > 0
+		}
+	} else {
+		c, sconn := TCPPair()
+		cc = c
+		addr = cc.LocalAddr().String()
+		go func() {
+			s, _ := srv.ServeConn(sconn)
+			if s != nil {
+				atomic.StoreInt32(&sessOK, 1)
+			}
+			atomic.StoreInt32(&served, 1)
+		}()
+		isServed = func() bool { return atomic.LoadInt32(&served) == 1 }
+	}
+	hasSess := func() bool { return atomic.LoadInt32(&sessOK) == 1 }
 
 	// reader
 	var (
@@ -493,9 +520,13 @@ func runCase(srv erpc.Peer, sc *script) *outcome {
 			if isEOF() {
 				return true
 			}
-			return sess != nil && !sc.expectExit && nReplies() >= sc.expectReplies
+			return hasSess() && !sc.expectExit && nReplies() >= sc.expectReplies
 		})
-		if sess != nil && !sc.expectExit {
+		if hasSess() && sc.entry == "listener" {
+			// serveListener indexes the session right after the chain; give that step its time
+			WaitUntil(300*time.Millisecond, func() bool { _, ok := srv.GetSession(addr); return ok || isEOF() })
+		}
+		if hasSess() && !sc.expectExit {
 			time.Sleep(2 * time.Millisecond)
 		}
 	}
@@ -503,7 +534,7 @@ func runCase(srv erpc.Peer, sc *script) *outcome {
 	snap := func() snapshot {
 		s := snapshot{served: "blocked"}
 		if isServed() {
-			if sess != nil {
+			if hasSess() {
 				s.served = "accepted"
 			} else {
 				s.served = "rejected"
@@ -610,7 +641,7 @@ func vcase(sc *script) string {
 		return VS(b)
 	}
 	return VL(VN(sizeLimit), VL(VN(int64(sc.ck.recvs)), VBool(sc.ck.propagate), VS(sc.ck.mode), VB(sc.ck.token),
-		VN(int64(sc.ck.panicAt)), hb(sc.ck.before), hb(sc.ck.after)), VL(ch...))
+		VN(int64(sc.ck.panicAt)), hb(sc.ck.before), hb(sc.ck.after)), VL(ch...), VS(sc.entry))
 }
 
 // ---- oracle on the implementation's own observations
@@ -1023,10 +1054,13 @@ func genCase(cfg *RunCfg) *script {
 		sc.chunks, sc.pauseAt, sc.split = split(cfg, first, rest, false)
 	}
 	sc.ck = ck
-	sc.human = fmt.Sprintf("chain(before=%q panic-at=%d after=%q) checker(recvs=%d propagate=%v mode=%s token=%q) first=%s suffix=[%s] split=%s stream=%s",
-		ck.before, ck.panicAt, ck.after, ck.recvs, ck.propagate, ck.mode, token, sc.class, labels, sc.split, Hx(append(append(append([]byte(nil), first...), rest...), tail...)))
+	sc.entry = []string{"serveconn", "listener"}[r.Intn(2)]
+	sc.human = fmt.Sprintf("entry=%s chain(before=%q panic-at=%d after=%q) checker(recvs=%d propagate=%v mode=%s token=%q) first=%s suffix=[%s] split=%s stream=%s",
+		sc.entry, ck.before, ck.panicAt, ck.after, ck.recvs, ck.propagate, ck.mode, token, sc.class, labels, sc.split, Hx(append(append(append([]byte(nil), first...), rest...), tail...)))
 	return sc
 }
+
+var listenAddr string
 
 var modeFlag = flag.String("mode", "server", "server | bearer")
 
@@ -1044,9 +1078,32 @@ func main() {
 		runBearer(cfg)
 		return
 	}
-	srv := erpc.NewPeer(erpc.PeerConfig{}, otherAccept{after: false}, theChecker, otherAccept{after: true}, recorder{})
+	// a free loopback port for the ListenAndServe entry point
+	pl, err := net.Listen("tcp", "127.0.0.1:0")
+	Must(err)
+	port := pl.Addr().(*net.TCPAddr).Port
+	pl.Close()
+	listenAddr = Fmt("127.0.0.1:%d", port)
+	srv := erpc.NewPeer(erpc.PeerConfig{LocalIP: "127.0.0.1", ListenPort: uint16(port)}, otherAccept{after: false}, theChecker, otherAccept{after: true}, recorder{})
 	srv.RouteCall(new(App))
 	srv.RoutePush(new(Note))
+	go srv.ListenAndServe()
+	if !WaitUntil(longWait, func() bool {
+		c, err := net.DialTimeout("tcp", listenAddr, time.Second)
+		if err != nil {
+			return false
+		}
+		c.Close()
+		return true
+	}) {
+		Must(fmt.Errorf("the listener did not come up"))
+	}
+	// the probe connection above was refused by the chain (it sent nothing); let it drain
+	WaitUntil(longWait, func() bool { return srv.CountSession() == 0 })
+	time.Sleep(20 * time.Millisecond)
+	recMu.Lock()
+	recs = map[string]*connRec{}
+	recMu.Unlock()
 
 	st := NewStats("C16", cfg)
 	st.Rule = "case = (checker behaviour, client byte stream, split); first action in {auth-ok, auth-wrong, call, push, reply, unknown-type, malformed:*, truncated, nothing, auth-status, auth-codec} x checker {recv once eq/all/none, recv twice propagate/ignore, no recv accept/reject} x split {one-write, pause-after-first, byte-by-byte, pause-at-random-offset} x 0..4 pipelined frames (+ truncated/malformed tail); distinct by (checker, stream, split); non-trivial = stream non-empty"
@@ -1062,6 +1119,7 @@ func main() {
 		o := runCase(srv, sc)
 		st.Count("first:" + sc.class)
 		st.Count("split:" + sc.split)
+		st.Count("entry:" + sc.entry)
 		st.Count(Fmt("checker:recvs=%d,propagate=%v,mode=%s", sc.ck.recvs, sc.ck.propagate, sc.ck.mode))
 		st.Count(Fmt("chain:before=%s,panic-at=%d,after=%s", sc.ck.before, sc.ck.panicAt, sc.ck.after))
 		st.Count("outcome:" + o.mid.served + "->" + o.fin.served)
@@ -1077,7 +1135,7 @@ func main() {
 			all = append(all, c...)
 		}
 		if len(all) > 0 {
-			distinct.Add(Fmt("%d/%v/%s/%d/%s/%s/%x/%s", sc.ck.recvs, sc.ck.propagate, sc.ck.mode, sc.ck.panicAt, sc.ck.before, sc.ck.after, all, sc.split))
+			distinct.Add(Fmt("%d/%v/%s/%d/%s/%s/%x/%s", sc.ck.recvs, sc.ck.propagate, sc.ck.mode, sc.ck.panicAt, sc.ck.before, sc.ck.after, all, sc.split+sc.entry))
 		}
 		if len(st.Samples) < 6 {
 			st.Samples = append(st.Samples, sc.human+" => "+render(o))
